@@ -655,6 +655,52 @@ func rulesC05(c *Ctx) {
 			c.Pin("accesses of "+k, seen[k], 1)
 		}
 	})
+	c.Rule("R-C05-16", "Close can cancel every listen stream the session has opened: ClientSession.Subscribe records the stream's cancel function (under resourceSubsMu) before the subscriptions/listen request goes out — recorded afterwards, a Close that runs in between finds nothing to cancel and waits for ever for a call the server answers only when it is cancelled", func() {
+		sub := c.Fn(pM, "ClientSession", "Subscribe")
+		g := sub.Graph()
+		rsF := c.Field(pM, "ClientSession", "resourceSubs")
+		listen := c.FnObj(pM, "ClientSession", "subscriptionsListen")
+		lv := g.callVertices(listen)
+		c.Pin("Subscribe: subscriptions/listen calls", len(lv), 1)
+		var stores []int
+		for _, w := range Writes(sub.Body, false) {
+			if m, _, ok := indexOf(w.LHS); ok && sub.IsField(m, rsF) {
+				stores = append(stores, g.VertexOf(w.Stmt))
+				c.Check(sub.heldLocal(w.Stmt)["ClientSession.resourceSubsMu"], "Subscribe:cancel-stored-under-lock", sub, w.Stmt, "the cancel function is stored with resourceSubsMu held")
+			}
+		}
+		c.Pin("Subscribe: stores into resourceSubs", len(stores), 1)
+		for _, v := range lv {
+			// the context given to the listen is created together with its registration: between every assignment of that
+			// context variable and the listen call the cancel function is stored, and the call is reached only with the
+			// variable set
+			call := sub.CallsIn(g.Node(v), listen, false)
+			if len(call) != 1 || len(call[0].Args) == 0 {
+				c.Fail("Subscribe:listen-call-shape", sub, g.Node(v), "subscriptionsListen(ctx, …)")
+				continue
+			}
+			ctxVar := sub.ObjOf(call[0].Args[0])
+			isStore := func(u int) bool {
+				for _, sv := range stores {
+					if u == sv {
+						return true
+					}
+				}
+				return false
+			}
+			nw := 0
+			for _, w := range sub.writesToVar(sub.Body, ctxVar, false) {
+				as, isAs := w.(*ast.AssignStmt)
+				if !isAs || len(as.Rhs) == 0 {
+					continue
+				}
+				nw++
+				ok, path := g.MustPass(g.VertexOf(w), []int{v}, isStore)
+				c.Check(ok, "Subscribe:cancel-registered-before-listen", sub, w, "between the creation of the listen context and the subscriptions/listen call the cancel function is stored %s", g.PathString(path))
+			}
+			c.Check(nw >= 1 && ctxVar != nil, "Subscribe:listen-context-is-a-local", sub, g.Node(v), "the listen context is a local created by Subscribe (%d assignments)", nw)
+		}
+	})
 	c.Import("R-C05-14", "Close waits for exactly the handlers that are running: every accepted request is counted on all paths of the accepting closure and un-counted once by processResult (a request refused without having been counted would un-count a running handler: Close returns, and closes the transport, under it)", "C02", "R-C02-1", func(k string) bool {
 		return strings.HasPrefix(k, "acceptRequest:count") || strings.HasPrefix(k, "processResult:decrement") || strings.HasPrefix(k, "incoming--")
 	})
